@@ -6,6 +6,7 @@ A case is a plain JSON dict (replayable):
   k0          loop iterations instantiated (stored) before the first reload
   cycles      [{update: bool, k_more: int}]          one reload (+explicit store) per entry, optionally
                                                      followed by further loop iterations on the RELOADED experiment
+  emptied     plan of "explicitly empty" list options (see _add_explicit_empties), [] for ~45 % of the cases
 Packages mix: 1-3 platforms, global/stage/component variables that refer to each other, platform
 overrides of variables / environments / blueprint / component `override`, user variable files whose
 values look like variable references, replication through variables, a DoWhile document (shapes of the
